@@ -83,7 +83,7 @@ def fn(d, render=tlaval.to_tla):
 
 def mc_module(p: Program, name: str) -> str:
     J = p.jobs
-    lines = [f"---- MODULE {name} ----", "EXTENDS BatchDBProps",
+    lines = [f"---- MODULE {name} ----", "EXTENDS BatchDBLive",
              "mcJUpd == " + fn({j: d["upd"] for j, d in J.items()}),
              "mcJGrp == " + fn({j: d["grp"] for j, d in J.items()}),
              "mcJPar == " + fn({j: frozenset(d["par"]) for j, d in J.items()}),
@@ -99,7 +99,7 @@ def setlit(xs):
     return "{" + ", ".join(tlaval.to_tla(x) for x in xs) + "}"
 
 
-def mc_cfg(p: Program, avoid=(), invariants=(), properties=(), extra="") -> str:
+def mc_cfg(p: Program, avoid=(), invariants=(), properties=(), extra="", spec=None) -> str:
     consts = {
         "Jobs": setlit(sorted(p.jobs)), "Groups": setlit([0] + sorted(p.groups)), "Updates": setlit(p.updates()),
         "JUpd": "<- mcJUpd", "JGrp": "<- mcJGrp", "JPar": "<- mcJPar", "JAlways": "<- mcJAlways", "JCores": "<- mcJCores",
@@ -107,7 +107,7 @@ def mc_cfg(p: Program, avoid=(), invariants=(), properties=(), extra="") -> str:
         "InstCores": p.inst_cores, "Times": setlit(p.times), "ResQ": p.res_q, "Days": setlit(p.days),
         "Features": setlit(p.features), "Avoid": setlit(avoid),
     }
-    return tlc.mk_cfg(constants=consts, invariants=invariants, properties=properties) + extra
+    return tlc.mk_cfg(constants=consts, invariants=invariants, properties=properties, spec=spec) + extra
 
 
 def job(upd=1, grp=0, par=(), always=False, cores=1000):
@@ -167,11 +167,11 @@ def spec_hash():
 
 
 def run_tlc(ctx, p: Program, *, avoid=ALL_AVOID, invariants=(), properties=(), dump=False, tag="mc", workers=None, simulate=None,
-            depth=None, timeout=3000):
+            depth=None, timeout=3000, spec=None):
     """Returns (TLCResult, workdir). Results of exhaustive runs are cached under build/tlc_cache."""
     name = f"MC_{p.name}"
     mod = mc_module(p, name)
-    cfg = mc_cfg(p, avoid, invariants, properties)
+    cfg = mc_cfg(p, avoid, invariants, properties, spec=spec)
     h = spec_hash()
     h.update(mod.encode())
     h.update(cfg.encode())
@@ -447,7 +447,64 @@ def replay_trace(p: Program, labels, states=None, seed=0, repo=None):
     return out, mism, impl
 
 
-def replay_graph(ctx, p: Program, graph: tlc.Graph, *, seed=0, max_steps=None, footprint=None, deadline=None):
+def selection_expected(p: Program, st):
+    """The enabling predicates of BatchDB's loop actions, evaluated on a projected state (cross-checked against the graph)."""
+    def grpcanc(g):
+        return any(a in st["canc"] for a in p.anc(g))
+    ur = st["ur"]
+    exp = {"cancel_ready": set(), "cancel_creating": set(), "cancel_running": set(), "orphan": set(), "schedule": set()}
+    for j, d in p.jobs.items():
+        s, g, al, jc = st["js"][j], d["grp"], d["always"], st["jc"][j]
+        if s == "none":
+            continue
+        running_grp = st["gst"][g] == "running"
+        if s == "Ready" and running_grp and (al or (not grpcanc(g) and not jc)) and ur["r"] + ur["x"] > 0 and ur["rcores"] > 0:
+            exp["schedule"].add((j,))
+        if ur["cr"] > 0 and s == "Ready" and running_grp and not al and (grpcanc(g) or jc):
+            exp["cancel_ready"].add((j,))
+        for a, at in st["att"][j].items():
+            if not at["ex"]:
+                continue
+            if ur["cc"] > 0 and s == "Creating" and running_grp and grpcanc(g) and not al and not jc:
+                exp["cancel_creating"].add((j, a))
+            if ur["cx"] > 0 and s == "Running" and running_grp and grpcanc(g) and not al and not jc:
+                exp["cancel_running"].add((j, a))
+            ja = st["jatt"][j]
+            if at["st"] != NULLT and at["en"] == NULLT and (s not in ("Running", "Creating") or (ja != "NULL" and ja != a)) \
+                    and st["inst"].get(at["inst"], {}).get("st") == "active":
+                exp["orphan"].add((j, a))
+    return exp
+
+
+EDGE_LOOP = {"CancelReady": "cancel_ready", "CancelCreating": "cancel_creating", "CancelRunning": "cancel_running", "Orphan": "orphan",
+             "SchedSelect": "schedule"}
+
+
+def check_selection_at(p, impl, got, out_edges, path):
+    """Returns a list of problems: real loop bodies vs predicates; predicates vs the graph's enabled loop actions."""
+    problems = []
+    exp = selection_expected(p, got)
+    real = impl.w.driver_selection()
+    for loop in exp:
+        r = real[loop]
+        if not isinstance(r, set):
+            problems.append(dict(kind="loop-error", loop=loop, result=repr(r), path=list(path)))
+        elif r != exp[loop]:
+            problems.append(dict(kind="selection", loop=loop, code_selects=sorted(r), spec_enables=sorted(exp[loop]), path=list(path)))
+    # the python predicates must agree with TLC's own evaluation of the actions' guards on this node
+    by_loop = {v: set() for v in EDGE_LOOP.values()}
+    for lab, _dst in out_edges:
+        name, args = tlc.parse_action_label(lab)
+        if name in EDGE_LOOP:
+            args = [str(a) if isinstance(a, tlaval.Sym) else a for a in args]
+            by_loop[EDGE_LOOP[name]].add((args[0],) if name in ("CancelReady", "SchedSelect") else (args[0], args[1]))
+    for loop, s in by_loop.items():
+        if not s <= exp[loop] or (loop in ("cancel_ready", "cancel_running", "orphan") and s != exp[loop]):
+            raise RuntimeError(f"harness predicate for {loop} disagrees with the specification: graph {sorted(s)} vs predicate {sorted(exp[loop])}")
+    return problems
+
+
+def replay_graph(ctx, p: Program, graph: tlc.Graph, *, seed=0, max_steps=None, footprint=None, deadline=None, check_selection=False):
     """Edge-cover walks of the TLC graph on the real code; full-state comparison after every step.
     Returns stats and a list of mismatches (dicts)."""
     rng = random.Random(seed)
@@ -459,6 +516,9 @@ def replay_graph(ctx, p: Program, graph: tlc.Graph, *, seed=0, max_steps=None, f
     sqlerrs = []
     nwalks = 0
     t0 = time.time()
+    out_edges = graph.out_edges() if check_selection else {}
+    sel_checked = set()
+    sel_problems = []
     for wk in walks:
         if max_steps is not None and steps >= max_steps:
             break
@@ -488,14 +548,22 @@ def replay_graph(ctx, p: Program, graph: tlc.Graph, *, seed=0, max_steps=None, f
                 if d:
                     mism.append(dict(path=list(path), label=lab, diff=d))
                     break
+                if check_selection and dst not in sel_checked:
+                    sel_checked.add(dst)
+                    sel_problems.extend(check_selection_at(p, impl, got, out_edges.get(dst, ()), path))
             for e in impl.sqlerrors:
                 sqlerrs.append(dict(path=list(path), error=e))
         finally:
             impl.close()
         if len(mism) >= 3:
             break
-    return dict(walks=nwalks, steps=steps, edges_covered=len(covered), edges=len(set(graph.edges)), nodes=len(graph.nodes),
-                wall_s=round(time.time() - t0, 1)), mism, sqlerrs
+    stats = dict(walks=nwalks, steps=steps, edges_covered=len(covered), edges=len(set(graph.edges)), nodes=len(graph.nodes),
+                 wall_s=round(time.time() - t0, 1))
+    if check_selection:
+        stats["states_with_selection_checked"] = len(sel_checked)
+        stats["selection_problems"] = sel_problems[:5]
+        stats["n_selection_problems"] = len(sel_problems)
+    return stats, mism, sqlerrs
 
 
 # ---- the verdict for one listed property -----------------------------------------------------------------------------------
@@ -508,6 +576,7 @@ FOOTPRINT = {
     "C07": {"js", "jc", "canc", "gex", "ur", "cr"},
     "C10": {"inst", "att"},
     "C41": {"us", "js", "jatt", "ur", "tally", "bst", "gst", "bnj", "gnj", "stg", "jc", "npp"},
+    "C39": {"js", "jatt", "att", "bst", "gst", "canc", "ur", "jc", "npp", "inst", "tally"},
 }
 
 FINDING_TEXT = {
@@ -521,7 +590,8 @@ FINDING_TEXT = {
 }
 
 
-def run_property(ctx, pid, invariants, properties, quick_programs, thorough_programs, findings=(), budget_quick=45, budget_thorough=600):
+def run_property(ctx, pid, invariants, properties, quick_programs, thorough_programs, findings=(), budget_quick=45, budget_thorough=600,
+                 check_selection=False):
     P = programs()
     names = quick_programs if ctx.quick else thorough_programs
     budget = budget_quick if ctx.quick else budget_thorough
@@ -551,7 +621,9 @@ def run_property(ctx, pid, invariants, properties, quick_programs, thorough_prog
             continue
         # (2) B1: the code has the specification's transition relation on this graph
         g = tlc.parse_dot(wd / "graph.dot")
-        stats, mism, sqlerrs = replay_graph(ctx, p, g, seed=ctx.seed, deadline=time.time() + per_prog)
+        stats, mism, sqlerrs = replay_graph(ctx, p, g, seed=ctx.seed, deadline=time.time() + per_prog, check_selection=check_selection)
+        for sp in stats.pop("selection_problems", []):
+            ctx.violation(f"selection:{sp.get('loop')}:{sp['kind']}", {"program": n, **sp})
         total_steps += stats["steps"]
         total_edges += stats["edges_covered"]
         ctx.cov.setdefault("graph_replay", []).append({"program": n, **stats})
